@@ -47,7 +47,7 @@ func init() {
 		Assumptions: []string{"Get only for i < words(s); ToStr only on in-range word values; from >= 0; end = -1 or >= 0"},
 		Flavours:    releaseThenGo126,
 		Required: []string{"w=1", "w=2", "w=4", "w=8", "tostr/partial-last-byte", "tostr/empty", "firstdiff/end=-1", "firstdiff/from>=lim", "firstdiff/end-beyond-shorter", "firstdiff/found", "firstdiff/none",
-			"firstdiff/prefix-pair", "strs/empty-list", "byte>=0x80", "len>=300"},
+			"firstdiff/prefix-pair", "firstdiff/end>=MaxInt/8", "strs/empty-list", "strs/append-to-element", "byte>=0x80", "len>=300"},
 		Families: func(c *mon.Config) []mon.Family {
 			return []mon.Family{
 				{Name: "one-two-byte", N: 4 * 257, Run: c08Enum},
@@ -82,15 +82,16 @@ func c08CheckStr(w *mon.W, n int, s string) bool {
 			return false
 		}
 	}
-	if len(s) > 0 && s[0]&7 == 0 && !retainCheck(w, "FromStr", "bitword FromStr", func() uint64 { return gen.HashBytes(words) }) {
-		return false
-	}
 	w.Op = "ToStr"
 	if back := bw.ToStr(words); back != s {
 		w.Fail(fmt.Sprintf("ToStr(FromStr(s))/w=%d", n), mon.D{"width": n, "s": fmt.Sprintf("%q", s), "got": fmt.Sprintf("%q", back)})
 		return false
 	}
 	w.Eval(int64(2*nwords + 2))
+	scribbleB(words) // ours now; a shared or cached buffer would poison later results
+	if len(s) > 0 && s[0]&7 == 0 && !retainCheck(w, "FromStr", "bitword FromStr", func() uint64 { return gen.HashBytes(words) }) {
+		return false
+	}
 	return true
 }
 
@@ -249,6 +250,30 @@ func c08FirstDiff(w *mon.W, idx int) {
 			}
 		}
 	}
+	// windows at the extreme of the int domain: a huge end means "up to the end of the shorter
+	// string", a huge from means an empty window
+	const maxInt = int(^uint(0) >> 1)
+	for _, end := range []int{maxInt, maxInt - 1, maxInt / 2, maxInt/2 + 1, maxInt / 8, maxInt/8 + 1, maxInt >> 16, 1<<31 - 1, maxInt>>31 + 1} {
+		for _, from := range []int{0, 1, wmax, maxInt, maxInt / 2, maxInt/8 + 1, maxInt>>31 + 7} {
+			lim := min(end, min(wa, wb))
+			exp := lim
+			for i := from; i < lim; i++ {
+				if c08Word(sa, n, i) != c08Word(sb, n, i) {
+					exp = i
+					break
+				}
+			}
+			w.Op, w.A, w.B = "FirstDiff(extreme)", int64(from), int64(end)
+			got := bw.FirstDiff(sa, sb, from, end)
+			ev++
+			if got != exp {
+				w.Fail("FirstDiff/extreme-window", mon.D{"width": n, "a": fmt.Sprintf("%q", sa), "b": fmt.Sprintf("%q", sb), "from": from, "end": end, "got": got, "expected": exp})
+				w.Eval(ev)
+				return
+			}
+		}
+	}
+	w.Bucket("firstdiff/end>=MaxInt/8")
 	w.Eval(ev)
 	w.Distinct(gen.Hash64(8, uint64(n), gen.HashStr(sa), gen.HashStr(sb)))
 	w.Sample(func() interface{} {
@@ -295,6 +320,26 @@ func c08Strs(w *mon.W, idx int) {
 			w.Fail("ToStrs/element", mon.D{"width": n, "i": i, "s": fmt.Sprintf("%q", strs[i]), "got": fmt.Sprintf("%q", back[i])})
 			return
 		}
+	}
+	// hostile caller: every element of the FromStrs result is ours; append a word to each (a trie
+	// builder appends terminators) and check that no OTHER element changed, then scribble
+	for i := range ws {
+		ws[i] = append(ws[i], 0xee)
+		for j := range ws {
+			e := 8 * len(strs[j]) / n
+			for x := 0; x < e; x++ {
+				if ws[j][x] != c08Word(strs[j], n, x) {
+					w.Fail("FromStrs/elements-share-memory", mon.D{"width": n, "strs": fmt.Sprintf("%q", strs), "appended_to": i, "changed_element": j, "word": x})
+					return
+				}
+			}
+		}
+	}
+	if k >= 2 {
+		w.Bucket("strs/append-to-element")
+	}
+	for i := range ws {
+		scribbleB(ws[i])
 	}
 	w.Eval(2)
 	if k >= 1 {
